@@ -129,12 +129,15 @@ def run_coll(case):
     issues3 = canon_issues(v3.validate_rules([fresh[i] for i in order]), fresh)
     pure["issues_same_after_conversion"] = issues3 == issues
     # 4. natural set order of the validator instances, source order of the rules
+    #    (built through SigmaValidator.from_dict, the route a validation configuration file takes)
     r4 = build(case)
-    v4 = make_validator(vs, case, ordered=False)
+    v4 = SigmaValidator.from_dict({"validators": list(vs), "exclusions": {i: list(names) for i, names in case["excl"]}}, BUILTIN)
     pure["natural_set_order_same_multiset"] = multiset(canon_issues(v4.validate_rules(r4), r4)) == multiset(issues)
     # 5. all built-in validators (or the requested subset) in two orders, rules in two orders; purity again
     rng = random.Random(case.get("seed", 0))
     names = list(case.get("all_vs") or sorted(BUILTIN))
+    if rng.random() < 0.4:   # a random subset of the built-in validators
+        names = rng.sample(names, rng.randint(1, len(names)))
     o1 = names[:]
     rng.shuffle(o1)
     o2 = o1[::-1] if rng.random() < 0.5 else rng.sample(o1, len(o1))
